@@ -150,6 +150,16 @@ func (r *Run) enterBlock(st *State, fr *Frame, to *ssa.BasicBlock) bool {
 		}
 		outer := r.outerLoopInvariants(st, fr, li.Ordinal)
 		fname := e.fnName[fr.Fn]
+		e.loopsHit[fmt.Sprintf("%s|%d", fname, li.Ordinal)] = true
+		for i, f := range st.Frames {
+			if f == fr {
+				q := fmt.Sprintf("%d", li.Ordinal)
+				for k := i; k > 0; k-- {
+					q = e.fnName[st.Frames[k].Fn] + ">" + q
+					e.loopsHit[e.fnName[st.Frames[k-1].Fn]+"|"+q] = true
+				}
+			}
+		}
 		if !back {
 			// snapshot of the locals at loop entry, for atentry(N, x) in invariants
 			snap := map[string]Val{}
@@ -1424,6 +1434,7 @@ func (r *Run) load(st *State, fr *Frame, av Val, t types.Type, in ssa.Instructio
 		switch a.Kind {
 		case ACell:
 			r.sharedCellCheck(st, fr, a.Cell, false, in)
+			r.guardLocalCheck(st, fr, a.Cell, false, in)
 			v := st.Cells[a.Cell]
 			if sv, ok := v.(*SliceV); ok {
 				c := *sv
@@ -1501,6 +1512,7 @@ func (r *Run) store(st *State, fr *Frame, av Val, v Val, vt types.Type, in ssa.I
 		switch a.Kind {
 		case ACell:
 			r.sharedCellCheck(st, fr, a.Cell, true, in)
+			r.guardLocalCheck(st, fr, a.Cell, true, in)
 			st.Cells[a.Cell] = v
 			return
 		case AField:
